@@ -109,6 +109,9 @@ def gen_cases(tier, seed):
     for pos in POSITIONS:
         r = rng(seed, "C04", pos)
         pairs = term_pairs(r, thorough)
+        if pos == "org":
+            # an origin that leaves exactly enough room for the three NOPs, with the constant defined after the last byte of memory
+            pairs = pairs + [(("lit", 0xFFFF), ("equ", 2, "after")), (("equ", 0xFFFF, "after"), ("lit", 2)), (("equ", 0xFFFE, "after"), ("equ", 1, "after"))]
         for left, right in pairs:
             for op in "+-*/":
                 if "label" in (left[0], right[0]) and pos in ("rmb", "pcr.num", "idx.const", "idx.const.ind", "org"):
